@@ -691,6 +691,7 @@ class Translator:
         self.sites = {}
         self.site_desc = {}
         self.diag = {}
+        self.keyerror_try = 0     # > 0 while translating the dynamic extent of a `try` whose handler catches KeyError
         self.hidden = None        # variable standing for state that outlives the call (mutable defaults, module globals)
         self.stack = []           # (key, frame)
         self.claims = []          # FreshTracer claims
@@ -955,6 +956,11 @@ class Translator:
             self.ex(fr, e.slice, out)
             if b.var is None:
                 return V()
+            if self.keyerror_try:
+                # `try: m[k] / except KeyError`: m is a mapping of unknown class and the key may be missing - a dict
+                # subclass with __missing__ (collections.defaultdict) then INSERTS the key: a possible modification
+                # of m.  (Elsewhere `x[k]` is a load only: the IR cannot see __missing__ without this idiom.)
+                out.append(MUT(b.var, pos))
             return V(var=self.elems(b.var, out, pos, views=not (b.cont or self.is_container(fr, e.value))))
         if isinstance(e, ast.Slice):
             for p in (e.lower, e.upper, e.step):
@@ -1771,9 +1777,15 @@ class Translator:
                 out.extend(self.block(fr, list(s.orelse), []))
         elif isinstance(s, ast.Try):
             fr.in_try = getattr(fr, "in_try", 0) + 1
+            catches_key = any(h.type is None or any(n in ast.unparse(h.type) for n in ("KeyError", "LookupError", "Exception"))
+                              for h in s.handlers)
             try:
-                for b in s.body:
-                    out.append(IF(self.block(fr, [b], []), []))
+                self.keyerror_try += 1 if catches_key else 0
+                try:
+                    for b in s.body:
+                        out.append(IF(self.block(fr, [b], []), []))
+                finally:
+                    self.keyerror_try -= 1 if catches_key else 0
                 hs = []
                 for h in s.handlers:
                     if h.type is not None:
